@@ -221,6 +221,24 @@ def apply_directives(body, directives, unit):
                     new = f"for {pat} in {val.strip()}: {expr} "
                 body.edit(toks[kw].start, toks[lo].start, new, "R8-loop", f"for {pat} in {expr}  =>  {new}")
             continue
+        m = re.fullmatch(r'(before|after)\s+"((?:[^"\\]|\\.)*)"#\*', key)
+        if m:
+            # `before "stmt"#*`: at EVERY statement that starts with these tokens (a refusal-point assertion has to guard every
+            # place the refusal is made from, also one a change adds); at least one has to be there
+            nth = 0
+            while True:
+                try:
+                    s, e = body.find_stmt(m.group(2).replace('\\"', '"'), nth)
+                except LostAnchor as ex:
+                    if nth == 0:
+                        body.lost_hints.append(str(ex))
+                    break
+                if m.group(1) == "before":
+                    body.insert(toks[s].start, val + "\n")
+                else:
+                    body.insert(toks[e].end, "\n" + val + "\n")
+                nth += 1
+            continue
         m = re.fullmatch(r'(before|after)\s+"((?:[^"\\]|\\.)*)"(?:#(\d+))?', key)
         if m:
             try:
@@ -419,7 +437,7 @@ def splice(template_path, repo_root, canary=False, quarantine=(), inline=None):
                         raise TemplateError("continuation without directive")
                     directives[-1] = (directives[-1][0], directives[-1][1] + "\n" + d[4:])
                 elif d.startswith("//@"):
-                    m = re.match(r"//@\s*((?:before|after)\s+\"(?:[^\"\\]|\\.)*\"(?:#\d+)?|closure@\"(?:[^\"\\]|\\.)*\"\.(?:sigd|sig)\??|[\w.*?]+(?:\([^)]*\))?)\s*:(.*)$", d, re.S)
+                    m = re.match(r"//@\s*((?:before|after)\s+\"(?:[^\"\\]|\\.)*\"(?:#(?:\d+|\*))?|closure@\"(?:[^\"\\]|\\.)*\"\.(?:sigd|sig)\??|[\w.*?]+(?:\([^)]*\))?)\s*:(.*)$", d, re.S)
                     if not m:
                         raise TemplateError(f"bad directive line: {d}")
                     directives.append((m.group(1), m.group(2).strip()))
@@ -562,7 +580,7 @@ def splice(template_path, repo_root, canary=False, quarantine=(), inline=None):
                 if d.startswith("//@|"):
                     directives[-1] = (directives[-1][0], directives[-1][1] + "\n" + d[4:])
                 elif d.startswith("//@"):
-                    m = re.match(r"//@\s*((?:before|after)\s+\"(?:[^\"\\]|\\.)*\"(?:#\d+)?|closure@\"(?:[^\"\\]|\\.)*\"\.(?:sigd|sig)\??|[\w.*?]+(?:\([^)]*\))?)\s*:(.*)$", d, re.S)
+                    m = re.match(r"//@\s*((?:before|after)\s+\"(?:[^\"\\]|\\.)*\"(?:#(?:\d+|\*))?|closure@\"(?:[^\"\\]|\\.)*\"\.(?:sigd|sig)\??|[\w.*?]+(?:\([^)]*\))?)\s*:(.*)$", d, re.S)
                     if not m:
                         raise TemplateError(f"bad directive line: {d}")
                     directives.append((m.group(1), m.group(2).strip()))
